@@ -43,4 +43,5 @@ def level_a(tier):
     """keymap.encode / keymap.encrypt proved order-free and equal to their specification for <=2 positional and <=2 keyword
     arguments with symbolic values (contracts/keymap_contracts.py)"""
     from checks import wrapperprops
-    return wrapperprops.keymap_level_a()
+    # ... and the maxsize dispatch (__new__) of the bounded decorator classes hands the configured keymap to the class it picks
+    return wrapperprops.merge_level_a(wrapperprops.keymap_level_a(), wrapperprops.level_a_summary('C09', tier))
